@@ -867,6 +867,11 @@ def correspond(ctx):
   n_states = ctx.budget(1, 2)
   units = run_units(ctx, 0, n_pairs, nsteps, n_states, deadline=time.time() + ctx.budget(140.0, 960.0))
   n_lines, dis = lean_leg(units)
+  # the sibling-order and components theorems are statements about the scans: Layer B (scan.tree both directions,
+  # scan.link_types, and their grouped transcriptions) is tied here too — every forest of <= 6 links, exact integers
+  import corr_C01
+  n_b, dis_b = corr_C01.layer_b(ctx, ctx.budget(4, 60))
+  n_lines += n_b; dis += dis_b
   fails = collect(ctx, units, shrink_budget=ctx.budget(40.0, 120.0))
   # state-level transform clause on the positional pipeline (hand-built well-shaped states: a joint displaced by eps),
   # OUTSIDE the dead zone of math.safe_norm (the shell 1e-8 .. sqrt(3)e-8 is the listed finding, re-run below)
